@@ -475,7 +475,10 @@ def bounded(tier):
     evals = 0
     distinct = set()
     worst = 0.0
+    from verif.engine.oblig import soft_deadline
     for k in range(n):
+      if soft_deadline(0.6, k, 1):
+        break
       xml, meta = modelgen.generate(rng, modelgen.Spec(n_links=(1, 3), orthogonal=True, single_kind_stack=True, limits_p=0.0, collide=False, actuators=(1, 2)))
       sys = mjcf.loads(xml)
       nq, nv, nu = sys.q_size(), sys.qd_size(), sys.act_size()
